@@ -2687,3 +2687,764 @@ func c05ReceiverLoads(w *World, call *ssa.Call) ([]ssa.Value, bool) {
 	}
 	return out, len(out) > 0
 }
+
+// ---- the caller's revocation options reach the verifier ---------------------------------------
+//
+// The property quantifies over "whether the caller supplied the context-aware validator or the deprecated client": the
+// validator that is consulted has to be the one the caller configured. The caller hands it over in a field of an
+// exported options struct, the value travels through the constructors (the deprecated wrappers delegate to the general
+// constructor, which delegates to the function that fills in the verifier) and ends in the verifier field the
+// revocation function reads. constructor/<fn> (c05Constructor) only says that the field is non-nil on success: a
+// constructor on the way that hands on a copy of the options without the caller's validator satisfies it — the
+// function that fills in the verifier installs its default — and the caller's validator is never consulted: whatever it
+// would report (revoked, unknown, an error), the validation passes when the default finds nothing. Hence:
+//
+//  1. option sources (c05OptionSources): from every value stored into the two verifier fields (found by role: the
+//     fields the receivers of the two validator calls are read from) a backward slice on SSA values — phis, local
+//     cells, struct fields filled in locally, the results of module helpers, the parameters of unexported functions at
+//     their closed call sites — to reads p.F of a field of a parameter whose type is an exported struct type T of the
+//     module (or *T). (T, F) is an option the caller configures revocation with; p is a parameter that carries it.
+//     What else flows into the fields (the result of a constructor call of a dependency) is a default.
+//  2. forwarding (c05OptionsForwarded): a module function Fn that itself has a parameter of type T / *T (it has been
+//     handed the caller's options) and calls a function G, passing for a parameter of G that carries option F a value a:
+//     every value a.F may hold is Fn's own p.F for a parameter p of type T / *T (then p carries F in turn: the rule
+//     applies to the callers of Fn), or another parameter of Fn as a whole (a positional parameter that overrides the
+//     field, as the deprecated constructors do for other fields), or a value selected only where the option fields of p
+//     were all tested nil (a default filled in for a caller that configured nothing). A field left at its zero value,
+//     read from another field, or set from anything else loses the caller's option.
+//  3. the default yields (c05DefaultYields): where the verifier fields are stored, a value that is not read from the
+//     caller's options (and is not nil) is stored only where the caller's validator and the caller's client were both
+//     tested nil — in the storing function, or at every call site of it. A default stored next to, or over, what the
+//     caller supplied is what the revocation function consults (it prefers the context-aware validator).
+//
+// Accepted shapes of a: the parameter itself; a load of a local copy (whole store of p, fields overwritten or not); a
+// composite literal / a local filled in field by field, with F stored from p.F directly or through locals and phis; the
+// result of a module helper that does one of these to its own parameter (followed into the helper with the call's
+// arguments); the address of such a cell when G takes *T; stores that are overwritten before the call on every path do
+// not count. What cannot be followed is undecided.
+
+// c05OptLeaf: one value (the field path of) a followed value may hold.
+type c05OptLeaf struct {
+	v    ssa.Value // a parameter the walk stops at (path: the field path read from it), or any other value (path empty)
+	path []int
+	via  []*ssa.BasicBlock // the blocks at whose end the value was selected on the way (stores into a cell, phi edges)
+	zero bool              // the zero value a cell is created with / a zero or nil constant
+}
+
+type c05OptWalk struct {
+	w       *World
+	stop    func(p *ssa.Parameter, path []int) bool
+	lenient bool // a value that cannot be followed is a leaf of its own (discovery) instead of a failure (decision)
+	seen    map[c05SeenKey]bool
+}
+
+// c05OptStruct: t is T or *T for an exported named struct type T declared in the module.
+func c05OptStruct(w *World, t types.Type) *types.Named {
+	if t == nil {
+		return nil
+	}
+	if p, ok := t.Underlying().(*types.Pointer); ok {
+		t = p.Elem()
+	}
+	n, ok := types.Unalias(t).(*types.Named)
+	if !ok || n.Obj().Pkg() == nil || !n.Obj().Exported() || !w.IsProductPkg(n.Obj().Pkg().Path()) {
+		return nil
+	}
+	if _, ok := n.Underlying().(*types.Struct); !ok {
+		return nil
+	}
+	return n
+}
+
+func (x *c05OptWalk) opaque(v ssa.Value, path []int, via []*ssa.BasicBlock) ([]c05OptLeaf, bool) {
+	if len(path) > 0 && !x.lenient {
+		return nil, false
+	}
+	return []c05OptLeaf{{v: v, path: path, via: via}}, true
+}
+
+func c05ParamIndex(p *ssa.Parameter) int {
+	for i, q := range p.Parent().Params {
+		if q == p {
+			return i
+		}
+	}
+	return -1
+}
+
+// leaves: what (the field `path` of) v may hold. stack: the module calls the walk descended through (a parameter of
+// the callee is the argument of that call).
+func (x *c05OptWalk) leaves(v ssa.Value, path []int, stack []*ssa.Call, via []*ssa.BasicBlock, depth int) ([]c05OptLeaf, bool) {
+	if depth <= 0 {
+		return x.opaque(v, path, via)
+	}
+	add := func(b *ssa.BasicBlock) []*ssa.BasicBlock {
+		return append(append([]*ssa.BasicBlock(nil), via...), b)
+	}
+	switch y := v.(type) {
+	case *ssa.Const:
+		return []c05OptLeaf{{v: v, via: via, zero: y.Value == nil}}, true
+	case *ssa.Phi:
+		var top *ssa.Call
+		if len(stack) > 0 {
+			top = stack[len(stack)-1]
+		}
+		key := c05SeenKey{y, fmt.Sprintf("%v|%p", path, top)}
+		if x.seen[key] {
+			return nil, true
+		}
+		x.seen[key] = true
+		var out []c05OptLeaf
+		for i, e := range y.Edges {
+			if e == v {
+				continue
+			}
+			l, ok := x.leaves(e, path, stack, add(y.Block().Preds[i]), depth)
+			if !ok {
+				return nil, false
+			}
+			out = append(out, l...)
+		}
+		return out, true
+	case *ssa.Parameter:
+		return x.param(y, path, false, stack, via, depth)
+	case *ssa.ChangeInterface:
+		return x.leaves(y.X, path, stack, via, depth)
+	case *ssa.ChangeType:
+		return x.leaves(y.X, path, stack, via, depth)
+	case *ssa.Call, *ssa.Extract:
+		call, k := callOf(v), 0
+		if e, isE := v.(*ssa.Extract); isE {
+			k = e.Index
+		}
+		if call == nil {
+			break
+		}
+		g := staticCallee(call)
+		if g == nil || g.Blocks == nil || !x.w.IsProductFn(g) || len(call.Call.Args) != len(g.Params) {
+			break
+		}
+		for _, c := range stack {
+			if staticCallee(c) == g {
+				return x.opaque(v, path, via) // recursion
+			}
+		}
+		var out []c05OptLeaf
+		n := 0
+		for _, b := range g.Blocks {
+			r, isRet := blockTerm(b).(*ssa.Return)
+			if !isRet || k >= len(r.Results) {
+				continue
+			}
+			l, ok := x.leaves(r.Results[k], path, append(append([]*ssa.Call(nil), stack...), call), via, depth-1)
+			if !ok {
+				return nil, false
+			}
+			out = append(out, l...)
+			n++
+		}
+		if n > 0 {
+			return out, true
+		}
+	case *ssa.Field:
+		return x.leaves(y.X, append([]int{y.Field}, path...), stack, via, depth)
+	case *ssa.Alloc:
+		// the address of a cell handed on as *T: what the cell holds when the pointer is used is asked by deref
+	case *ssa.UnOp:
+		if y.Op != token.MUL {
+			break
+		}
+		return x.deref(y.X, path, y, stack, via, depth)
+	}
+	return x.opaque(v, path, via)
+}
+
+// deref: what the field `path` of the struct (or the variable, path empty) behind the pointer ptr holds when the
+// instruction at uses it.
+func (x *c05OptWalk) deref(ptr ssa.Value, path []int, at ssa.Instruction, stack []*ssa.Call, via []*ssa.BasicBlock, depth int) ([]c05OptLeaf, bool) {
+	path = append([]int(nil), path...)
+	for {
+		fa, isFA := ptr.(*ssa.FieldAddr)
+		if !isFA {
+			break
+		}
+		path = append([]int{fa.Field}, path...)
+		ptr = fa.X
+	}
+	switch r := ptr.(type) {
+	case *ssa.Alloc:
+		return x.cell(r, path, at, stack, via, depth)
+	case *ssa.Parameter:
+		return x.param(r, path, true, stack, via, depth)
+	}
+	return x.opaque(ptr, path, via)
+}
+
+// param: a parameter (pointer: the struct behind a pointer parameter) — a leaf where the walk stops, the argument of
+// the call the walk descended through, or the arguments of every call site when they are all known.
+func (x *c05OptWalk) param(p *ssa.Parameter, path []int, pointer bool, stack []*ssa.Call, via []*ssa.BasicBlock, depth int) ([]c05OptLeaf, bool) {
+	if x.stop(p, path) {
+		return []c05OptLeaf{{v: p, path: path, via: via}}, true
+	}
+	idx := c05ParamIndex(p)
+	follow := func(arg ssa.Value, call *ssa.Call, stack []*ssa.Call, via []*ssa.BasicBlock) ([]c05OptLeaf, bool) {
+		if pointer {
+			return x.deref(arg, path, call, stack, via, depth-1)
+		}
+		return x.leaves(arg, path, stack, via, depth-1)
+	}
+	if n := len(stack); n > 0 && staticCallee(stack[n-1]) == p.Parent() && idx >= 0 && idx < len(stack[n-1].Call.Args) {
+		return follow(stack[n-1].Call.Args[idx], stack[n-1], stack[:n-1], via)
+	}
+	sites, closed := c05CallSites(x.w, p.Parent())
+	if !closed || len(sites) == 0 || idx < 0 || len(stack) > 0 {
+		return x.opaque(p, path, via)
+	}
+	var out []c05OptLeaf
+	for _, s := range sites {
+		if idx >= len(s.Call.Args) {
+			return nil, false
+		}
+		// what was selected inside the helper is dropped: the frame is now the caller's
+		l, ok := follow(s.Call.Args[idx], s, nil, nil)
+		if !ok {
+			return nil, false
+		}
+		out = append(out, l...)
+	}
+	return out, true
+}
+
+// cell: what the field `path` of the local cell al (the whole variable: path empty) holds when the instruction at
+// reads it (a load, or the call that is handed the cell's address): every value stored into the field or into the whole
+// cell, without the stores that another store of the same field (or of the whole cell) overwrites on every path to at,
+// and the zero value unless a store precedes at on every path. The cell must be confined: used for nothing but loads
+// and stores of the whole value and of its fields, and as an argument of at itself.
+func (x *c05OptWalk) cell(al *ssa.Alloc, path []int, at ssa.Instruction, stack []*ssa.Call, via []*ssa.BasicBlock, depth int) ([]c05OptLeaf, bool) {
+	if al.Referrers() == nil || at == nil || at.Parent() != al.Parent() {
+		return x.opaque(al, path, via)
+	}
+	type write struct {
+		st    *ssa.Store
+		whole bool
+	}
+	var writes []write
+	confined := true
+	for _, ref := range *al.Referrers() {
+		switch y := ref.(type) {
+		case *ssa.DebugRef:
+		case *ssa.UnOp:
+			if y.Op != token.MUL {
+				confined = false
+			}
+		case *ssa.Store:
+			if y.Addr != ssa.Value(al) || y.Val == ssa.Value(al) {
+				confined = false
+			} else {
+				writes = append(writes, write{y, true})
+			}
+		case *ssa.FieldAddr:
+			if y.Referrers() == nil {
+				confined = false
+				continue
+			}
+			if len(path) > 0 && y.Field != path[0] {
+				continue // another field: no pointer arithmetic leads from it to the field asked for
+			}
+			for _, u := range *y.Referrers() {
+				switch z := u.(type) {
+				case *ssa.DebugRef:
+				case *ssa.UnOp:
+					if z.Op != token.MUL {
+						confined = false
+					}
+				case *ssa.Store:
+					if z.Addr != ssa.Value(y) || len(path) == 0 {
+						confined = false
+					} else {
+						writes = append(writes, write{z, false})
+					}
+				default:
+					confined = false
+				}
+			}
+		default:
+			if ref != at {
+				confined = false
+			}
+		}
+	}
+	if !confined {
+		return x.opaque(al, path, via)
+	}
+	var out []c05OptLeaf
+	covered := false
+	for _, w1 := range writes {
+		if !c05CanReach(w1.st, at) {
+			continue // executed only after the last time at is: at never sees it
+		}
+		if c05Before(w1.st, at) {
+			covered = true
+		}
+		killed := false
+		for _, w2 := range writes {
+			if w2.st != w1.st && c05Before(w1.st, w2.st) && c05Before(w2.st, at) {
+				killed = true
+			}
+		}
+		if killed {
+			continue
+		}
+		p := path
+		if !w1.whole {
+			p = path[1:]
+		}
+		l, ok := x.leaves(w1.st.Val, p, stack, append(append([]*ssa.BasicBlock(nil), via...), w1.st.Block()), depth-1)
+		if !ok {
+			return nil, false
+		}
+		out = append(out, l...)
+	}
+	if !covered {
+		out = append(out, c05OptLeaf{v: al, via: via, zero: true})
+	}
+	return out, true
+}
+
+// c05CanReach: some path executes a and later b (same function).
+func c05CanReach(a, b ssa.Instruction) bool {
+	if a.Block() == b.Block() && instrIndex(a) < instrIndex(b) {
+		return true
+	}
+	seen := map[*ssa.BasicBlock]bool{}
+	work := append([]*ssa.BasicBlock(nil), a.Block().Succs...)
+	for len(work) > 0 {
+		x := work[len(work)-1]
+		work = work[:len(work)-1]
+		if seen[x] {
+			continue
+		}
+		seen[x] = true
+		if x == b.Block() {
+			return true
+		}
+		work = append(work, x.Succs...)
+	}
+	return false
+}
+
+// c05NilTested: cond evaluating to truth says that the returned value is nil (nil: cond says nothing of that kind).
+func c05NilTested(cond ssa.Value, truth bool) ssa.Value {
+	for {
+		u, ok := cond.(*ssa.UnOp)
+		if !ok || u.Op != token.NOT {
+			break
+		}
+		truth = !truth
+		cond = u.X
+	}
+	bo, ok := cond.(*ssa.BinOp)
+	if !ok || (bo.Op != token.EQL && bo.Op != token.NEQ) || (bo.Op == token.EQL) != truth {
+		return nil
+	}
+	if isNilConst(bo.Y) {
+		return bo.X
+	}
+	if isNilConst(bo.X) {
+		return bo.Y
+	}
+	return nil
+}
+
+// c05ReachedOnlyWithNil: control reaches the end of block b only through an edge of a branch that found a value
+// accepted by isCaller to be nil (the edge into a block with that single predecessor which dominates b).
+func c05ReachedOnlyWithNil(b *ssa.BasicBlock, isCaller func(ssa.Value) bool) bool {
+	for d := b; d != nil; d = d.Idom() {
+		id := d.Idom()
+		if id == nil {
+			break
+		}
+		iff, ok := blockTerm(id).(*ssa.If)
+		if !ok || len(id.Succs) != 2 || id.Succs[0] == id.Succs[1] || len(d.Preds) != 1 {
+			continue
+		}
+		for si, s := range id.Succs {
+			if s == d {
+				if y := c05NilTested(iff.Cond, si == 0); y != nil && isCaller(y) {
+					return true
+				}
+			}
+		}
+	}
+	return false
+}
+
+// c05VerifierFields: the named type and the two fields of the verifier the receivers of the validator calls are read from.
+func c05VerifierFields(w *World, vcCall, vCall *ssa.Call) (t string, f1, f2 int, ok bool) {
+	fieldOfRecv := func(call *ssa.Call) (string, int) {
+		loads, ok := c05ReceiverLoads(w, call)
+		if !ok {
+			return "", -1
+		}
+		t, f := "", -1
+		for _, v := range loads {
+			u, ok := v.(*ssa.UnOp)
+			if !ok || u.Op != token.MUL {
+				return "", -1
+			}
+			fa, ok := u.X.(*ssa.FieldAddr)
+			if !ok {
+				return "", -1
+			}
+			if f >= 0 && (namedOf(fa.X.Type()) != t || fa.Field != f) {
+				return "", -1
+			}
+			t, f = namedOf(fa.X.Type()), fa.Field
+		}
+		return t, f
+	}
+	t1, f1 := fieldOfRecv(vcCall)
+	t2, f2 := fieldOfRecv(vCall)
+	if f1 < 0 || f2 < 0 || t1 != t2 {
+		return "", -1, -1, false
+	}
+	return t1, f1, f2, true
+}
+
+// c05OptionsForwarded: see the comment at the head of this section.
+func c05OptionsForwarded(c *Ctx, R *ssa.Function, vcCall, vCall *ssa.Call) {
+	w := c.W
+	t1, f1, f2, ok := c05VerifierFields(w, vcCall, vCall)
+	if !ok {
+		return // constructor/fields is undecided (c05Constructor)
+	}
+	// (1) option sources
+	carries := map[*ssa.Parameter]map[int]bool{} // parameter of type T / *T -> fields of T read from it that end in the verifier
+	mark := func(p *ssa.Parameter, f int) bool {
+		if carries[p] == nil {
+			carries[p] = map[int]bool{}
+		}
+		if carries[p][f] {
+			return false
+		}
+		carries[p][f] = true
+		return true
+	}
+	srcRule := "anchor: the fields of the module's exported options struct that the values stored into the verifier's code-signing validator / client fields are read from (backward slice from the stores)"
+	roles := map[int]string{f1: "context-validator", f2: "deprecated-client"}
+	found := map[int][]string{}
+	type optField struct {
+		T *types.Named
+		f int
+	}
+	srcOf := map[int]map[optField]bool{f1: {}, f2: {}} // verifier field -> the option fields it is fed from
+	type fieldStore struct {
+		st     *ssa.Store
+		leaves []c05OptLeaf
+	}
+	var fieldStores []fieldStore
+	for _, fn := range w.Funcs {
+		if fn == R {
+			continue
+		}
+		for _, b := range fn.Blocks {
+			for _, in := range b.Instrs {
+				st, ok := in.(*ssa.Store)
+				if !ok {
+					continue
+				}
+				fa, ok := st.Addr.(*ssa.FieldAddr)
+				if !ok || namedOf(fa.X.Type()) != t1 || (fa.Field != f1 && fa.Field != f2) {
+					continue
+				}
+				wk := &c05OptWalk{w: w, lenient: true, seen: map[c05SeenKey]bool{},
+					stop: func(p *ssa.Parameter, path []int) bool { return len(path) >= 1 && c05OptStruct(w, p.Type()) != nil }}
+				ls, _ := wk.leaves(st.Val, nil, nil, nil, 8)
+				c.Evals++
+				fieldStores = append(fieldStores, fieldStore{st, ls})
+				for _, lf := range ls {
+					p, isP := lf.v.(*ssa.Parameter)
+					if !isP || len(lf.path) != 1 {
+						continue
+					}
+					T := c05OptStruct(w, p.Type())
+					if T == nil {
+						continue
+					}
+					mark(p, lf.path[0])
+					srcOf[fa.Field][optField{T, lf.path[0]}] = true
+					c.SeenFn(fn.String())
+					found[fa.Field] = append(found[fa.Field], T.Obj().Name()+"."+fieldName(T, lf.path[0]))
+				}
+			}
+		}
+	}
+	for _, f := range []int{f1, f2} {
+		key := "constructor/option-source/" + roles[f]
+		if f1 == f2 {
+			key = "constructor/option-source/validator"
+		}
+		if len(found[f]) == 0 {
+			c.Unk(key, srcRule, w.FnPos(R), "no value stored into the verifier field is read from a field of an exported options struct parameter: the rule does not recognise how the caller configures revocation")
+		} else {
+			c.OK(key, srcRule+": "+strings.Join(uniq(sortStrings(found[f])), ", "), w.FnPos(R))
+		}
+	}
+	c.MinCount("constructor/option-source", 2, "verifier fields fed from the caller's options (the context-aware validator, the deprecated client)")
+
+	// (3) the default yields to what the caller supplied
+	{
+		rule := "constructor: a value that is not read from the caller's options (a default) is stored into the verifier's code-signing validator / client field only where the caller's validator and the caller's client were both tested nil (in the storing function or at every call site of it): a default stored over or next to what the caller supplied is consulted instead of it"
+		srcMode := func() *c05OptWalk {
+			return &c05OptWalk{w: w, lenient: true, seen: map[c05SeenKey]bool{},
+				stop: func(p *ssa.Parameter, path []int) bool { return len(path) >= 1 && c05OptStruct(w, p.Type()) != nil }}
+		}
+		isSrc := func(vf int) func(ssa.Value) bool {
+			return func(v ssa.Value) bool {
+				ls, ok := srcMode().leaves(v, nil, nil, nil, 8)
+				if !ok || len(ls) == 0 {
+					return false
+				}
+				for _, lf := range ls {
+					p, isP := lf.v.(*ssa.Parameter)
+					if !isP || len(lf.path) != 1 {
+						return false
+					}
+					if T := c05OptStruct(w, p.Type()); T == nil || !srcOf[vf][optField{T, lf.path[0]}] {
+						return false
+					}
+				}
+				return true
+			}
+		}
+		// control is in one of the blocks only after both nil tests — or the function is entered only from such places
+		var guardedAt func(fn *ssa.Function, blocks []*ssa.BasicBlock, depth int) bool
+		guardedAt = func(fn *ssa.Function, blocks []*ssa.BasicBlock, depth int) bool {
+			all := true
+			for _, vf := range []int{f1, f2} {
+				g := false
+				for _, b := range blocks {
+					if b.Parent() == fn && c05ReachedOnlyWithNil(b, isSrc(vf)) {
+						g = true
+					}
+				}
+				all = all && g
+			}
+			if all {
+				return true
+			}
+			sites, closed := c05CallSites(w, fn)
+			if !closed || len(sites) == 0 || depth <= 0 {
+				return false
+			}
+			for _, s := range sites {
+				if !guardedAt(s.Parent(), []*ssa.BasicBlock{s.Block()}, depth-1) {
+					return false
+				}
+			}
+			return true
+		}
+		nDefaults := 0
+		for _, fs := range fieldStores {
+			fn := fs.st.Parent()
+			key := "constructor/default-yields/" + fnName(fn)
+			okAll := true
+			for _, lf := range fs.leaves {
+				if lf.zero {
+					continue // nil: not a validator (constructor/<fn> decides whether an exit may leave both fields nil)
+				}
+				if p, isP := lf.v.(*ssa.Parameter); isP && len(lf.path) == 1 && c05OptStruct(w, p.Type()) != nil {
+					continue // the caller's
+				}
+				c.Evals++
+				nDefaults++
+				if guardedAt(fn, append(append([]*ssa.BasicBlock(nil), lf.via...), fs.st.Block()), 2) {
+					continue
+				}
+				okAll = false
+				c.Bad(key, rule, w.InstrPos(fs.st), fmt.Sprintf("%s stores %s into the verifier field %s on a path on which the caller's validator and client were not both found nil", fnName(fn), desc(lf.v), fieldName(fs.st.Addr.(*ssa.FieldAddr).X.Type(), fs.st.Addr.(*ssa.FieldAddr).Field)))
+				break
+			}
+			if okAll {
+				c.OK(key, rule, w.InstrPos(fs.st))
+			}
+		}
+		if nDefaults == 0 {
+			c.Unk("constructor/default-yields", rule, w.FnPos(R), "vacuity guard: no default value is stored into the verifier's code-signing validator / client field: the rule no longer matches the code it was written for")
+		}
+	}
+
+	// (2) forwarding, to a fixpoint: a parameter from which a forwarded field is read carries that field in turn
+	fwdRule := "forwarding: a function that was handed the caller's options struct and passes options on towards the verifier passes, in every field the code-signing validator / client is read from, " +
+		"its own parameter's value of that field (or another parameter of its own that overrides it, or a default selected only where its parameter's validator and client fields were tested nil); a field left at its zero value or set from anything else loses the validator the caller supplied"
+	type siteKey struct {
+		call  *ssa.Call
+		arg   int
+		field int
+	}
+	type verdict struct {
+		fn     *ssa.Function
+		status string
+		detail string
+	}
+	done := map[siteKey]verdict{}
+	var order []siteKey
+	inFrame := func(p *ssa.Parameter, fn *ssa.Function) bool {
+		for f := fn; f != nil; f = f.Parent() {
+			if p.Parent() == f {
+				return true
+			}
+		}
+		return false
+	}
+	hasOptions := func(fn *ssa.Function, T *types.Named) bool {
+		for f := fn; f != nil; f = f.Parent() {
+			for _, p := range f.Params {
+				if n := c05OptStruct(w, p.Type()); n != nil && types.Identical(n, T) {
+					return true
+				}
+			}
+		}
+		return false
+	}
+	for changed, round := true, 0; changed && round < 8; round++ {
+		changed = false
+		done, order = map[siteKey]verdict{}, nil // the verdicts of the last round stand: it knows every field a parameter carries
+		for _, fn := range w.Funcs {
+			for _, ci := range allCalls(fn) {
+				call, ok := ci.(*ssa.Call)
+				if !ok {
+					continue
+				}
+				g := staticCallee(call)
+				if g == nil || g.Blocks == nil || len(call.Call.Args) != len(g.Params) {
+					continue
+				}
+				for i, gp := range g.Params {
+					if len(carries[gp]) == 0 {
+						continue
+					}
+					T := c05OptStruct(w, gp.Type())
+					if T == nil || !hasOptions(fn, T) {
+						continue // fn was not handed any options of the caller: what it passes is its own configuration
+					}
+					var fields []int
+					for f := range carries[gp] {
+						fields = append(fields, f)
+					}
+					c05SortInts(fields)
+					for _, f := range fields {
+						k := siteKey{call, i, f}
+						if _, seen := done[k]; seen {
+							continue
+						}
+						stop := func(p *ssa.Parameter, _ []int) bool { return inFrame(p, fn) }
+						wk := &c05OptWalk{w: w, seen: map[c05SeenKey]bool{}, stop: stop}
+						var ls []c05OptLeaf
+						var ok bool
+						if _, isPtr := call.Call.Args[i].Type().Underlying().(*types.Pointer); isPtr {
+							ls, ok = wk.deref(call.Call.Args[i], []int{f}, call, nil, nil, 8)
+						} else {
+							ls, ok = wk.leaves(call.Call.Args[i], []int{f}, nil, nil, 8)
+						}
+						c.Evals++
+						c.SeenFn(fn.String())
+						name := T.Obj().Name() + "." + fieldName(T, f)
+						what := fmt.Sprintf("%s passes options to %s", fnName(fn), fnName(g))
+						if !ok || len(ls) == 0 {
+							done[k] = verdict{fn, Undecided, what + ": how the field " + name + " of the options passed (" + desc(call.Call.Args[i]) + ") is filled in was not followed to its sources"}
+							order = append(order, k)
+							continue
+						}
+						// a value found nil by a branch is the caller's own field: every source of it is p.f
+						isOwn := func(f int) func(v ssa.Value) bool {
+							return func(v ssa.Value) bool {
+								wk2 := &c05OptWalk{w: w, seen: map[c05SeenKey]bool{}, stop: stop}
+								l2, ok := wk2.leaves(v, nil, nil, nil, 8)
+								if !ok || len(l2) == 0 {
+									return false
+								}
+								for _, lf := range l2 {
+									p, isP := lf.v.(*ssa.Parameter)
+									if !isP || len(lf.path) != 1 || lf.path[0] != f {
+										return false
+									}
+									if n := c05OptStruct(w, p.Type()); n == nil || !types.Identical(n, T) {
+										return false
+									}
+								}
+								return true
+							}
+						}
+						v := verdict{fn, Discharged, ""}
+						for _, lf := range ls {
+							if p, isP := lf.v.(*ssa.Parameter); isP && !lf.zero && inFrame(p, fn) {
+								if len(lf.path) == 0 {
+									continue // overridden by a parameter of its own
+								}
+								if n := c05OptStruct(w, p.Type()); n != nil && types.Identical(n, T) && len(lf.path) == 1 && lf.path[0] == f {
+									if mark(p, f) {
+										changed = true
+									}
+									continue
+								}
+							}
+							// a default: selected only where every revocation field of the caller's options that is handed on
+							// here was found nil (a default validator put next to the caller's client would be preferred to it)
+							guarded := true
+							for _, ff := range fields {
+								g := false
+								for _, b := range lf.via {
+									if b.Parent() == fn && c05ReachedOnlyWithNil(b, isOwn(ff)) {
+										g = true
+									}
+								}
+								guarded = guarded && g
+							}
+							if guarded {
+								continue
+							}
+							v.status = Violated
+							switch {
+							case lf.zero:
+								how := "is left at its zero value"
+								if _, isK := lf.v.(*ssa.Const); isK {
+									how = "is set to " + desc(lf.v)
+								}
+								v.detail = what + " in which the field " + name + " " + how + ": the value the caller supplied in that field never reaches the verifier (a default validator is installed instead)"
+							case len(lf.path) > 0:
+								v.detail = what + " in which the field " + name + " is read from " + desc(lf.v) + "." + fieldName(lf.v.Type(), lf.path[0]) + " instead of the same field of its own options parameter"
+							default:
+								v.detail = what + " in which the field " + name + " may be " + desc(lf.v) + ", which is neither its own options parameter's value of that field nor a default chosen where the caller's validator and client are nil"
+							}
+							break
+						}
+						done[k] = v
+						order = append(order, k)
+					}
+				}
+			}
+		}
+	}
+	for _, k := range order {
+		v := done[k]
+		key := "constructor/options-forwarded/" + fnName(v.fn)
+		switch v.status {
+		case Discharged:
+			c.OK(key, fwdRule, w.InstrPos(k.call))
+		case Undecided:
+			c.Unk(key, fwdRule, w.InstrPos(k.call), v.detail)
+		default:
+			c.Bad(key, fwdRule, w.InstrPos(k.call), v.detail)
+		}
+	}
+	c.MinCount("constructor/options-forwarded", 1, "functions that hand the caller's revocation options on towards the verifier (the deprecated constructors, the general constructor)")
+}
+
+func c05SortInts(s []int) {
+	for i := 1; i < len(s); i++ {
+		for j := i; j > 0 && s[j] < s[j-1]; j-- {
+			s[j], s[j-1] = s[j-1], s[j]
+		}
+	}
+}
